@@ -97,8 +97,11 @@ def shrink_failure(modname, eng, case, kind):
 
 def shrink_disagreement(eng, case, obs_of):
   cur = case
-  for _ in range(30):
-    cands = list(eng.shrink(cur))[:60]
+  deadline = time.time() + 25
+  for _ in range(12):
+    if time.time() > deadline:
+      break
+    cands = list(eng.shrink(cur))[:40]
     if not cands:
       break
     pairs = []
@@ -225,14 +228,28 @@ def main(argv=None):
         disagreement_replays.append({'engine': eng.name, 'correspondence': 'corr:%s/model-run-failed' % eng.name,
                                      'errors': errs[:3]})
       if mism:
-        i = mism[0]
-        small = shrink_disagreement(eng, cases[i], lambda c: eng.impl(c)['obs'])
-        so = eng.impl(small)
-        disagreement_replays.append({
-            'engine': eng.name, 'correspondence': 'corr:%s/observations' % eng.name,
-            'n_disagreeing_cases': len(mism), 'case': small,
-            'impl_observation': so['obs'], 'impl_pimpl_fails': so['fails'],
-            'model_observation': C.model_eval(eng.name, eng.imports, eng.run_fn, eng.to_coq(small))})
+        # examine (up to 6 of) the disagreeing cases: one that a recorded finding does not explain is reported
+        for i in mism[:6]:
+          pre = [match_known(known, pid, f[0], f[1], cases[i]) for f in outs[i]['fails']]
+          if pre and all(pre):
+            small, so = cases[i], outs[i]          # already explained by a recorded finding: no need to shrink
+          else:
+            small = shrink_disagreement(eng, cases[i], lambda c: eng.impl(c)['obs'])
+            so = eng.impl(small)
+          kfs = [match_known(known, pid, f[0], f[1], small) for f in so['fails']]
+          if kfs and all(kfs):
+            # the divergence is the recorded defect itself (the model follows the property there)
+            for kf in kfs:
+              if kf['id'] not in known_hit:
+                known_hit.append(kf['id'])
+                lines.append('KNOWN-FINDING: property=%s %s' % (pid, kf['what']))
+            continue
+          disagreement_replays.append({
+              'engine': eng.name, 'correspondence': 'corr:%s/observations' % eng.name,
+              'n_disagreeing_cases': len(mism), 'case': small,
+              'impl_observation': so['obs'], 'impl_pimpl_fails': so['fails'],
+              'model_observation': C.model_eval(eng.name, eng.imports, eng.run_fn, eng.to_coq(small))})
+          break
     total_eval += len(cases)
     total_nt += nt
     k = min(2, len(cases))
